@@ -365,6 +365,31 @@ def run_hier_construct(case, ctx):
                         continue
                     absent = [t for t in pool if t not in tuples] + [('z', 9) + (('q',) if len(pool[0]) == 3 else ())]
                     check_index(ctx, f'hier|{route}', ix, tuples, absent, info)
+                    if route == 'from_labels' and n >= 2 and len(set(tuples)) == n:
+                        # derived by re-ordering rows (roll, positional and label lists): the result is checked as an index of its own when the new
+                        # order is a tree, and must be refused (never silently accepted with diverging views) when it is not
+                        for perm in itertools.permutations(range(n)):
+                            if list(perm) == list(range(n)):
+                                continue
+                            new_order = [tuples[i] for i in perm]
+                            routes2 = [('iloc[list]', lambda: ix.iloc[list(perm)]), ('loc[list]', lambda: ix.loc[new_order])]
+                            k = perm[0]
+                            if list(perm) == [(k + i) % n for i in range(n)]:
+                                routes2.append(('roll', lambda: ix.roll(-k)))
+                            for r2, fn2 in routes2:
+                                ctx.transition()
+                                info2 = dict(route=r2, source=tuples, order=new_order)
+                                try:
+                                    d2 = fn2()
+                                except Exception as e:
+                                    if tree_ordered(new_order):
+                                        ctx.violation(f'hier|derive-{r2}|valid-tree-rejected|{type(e).__name__}', **info2, error=repr(e))
+                                    continue
+                                if not tree_ordered(new_order):
+                                    # accepted although the order is not a tree: tolerated only if the index it gives is coherent with that order
+                                    check_index(ctx, f'hier|derive-{r2}|non-tree-order', d2, new_order, absent, info2)
+                                else:
+                                    check_index(ctx, f'hier|derive-{r2}', d2, new_order, absent, info2)
     # product / tree / index-items / level add / drop / flat routes on a fixed family
     for outs, ins in ((('a', 'b'), (1, 2)), (('b', 'a'), (2, 1, 3)), (('a',), (1,))):
         exp = [(o, i) for o in outs for i in ins]
